@@ -10,6 +10,7 @@ every one-factor deviation; two-factor deviations exhaustive in thorough / sampl
 lengths, order, element perturbation, raising element before/after a False element; plus seeded random), malformed
 (None/ndarray offsets, None estimates, pose arrays of the wrong length)."""
 import itertools
+import math
 import os
 import sys
 import time
@@ -23,6 +24,8 @@ import numpy as np  # noqa: E402
 KS = list(range(-12, 4))  # perturbation magnitudes tol*scale*10^k
 KS_OUT = [k for k in KS if not (0.5 <= 10.0**k <= 2.0)]
 KS_SMALL = [-9, -1, 1, 3]
+
+KS_FINE = [math.log10(f) for f in (0.3, 0.45, 2.2, 3.5)]  # just outside the skipped band
 DEFAULT_TOL = 1e-6
 TOLS = [None, 1e-3]  # None = call without the argument (the default 1e-6)
 
@@ -60,12 +63,18 @@ def base_vals(kind, magn):
 
 
 def perturbed(arr, idx, k, tol, sign=1.0):
-    """copy of arr with entry idx moved by sign * 10^k * tol * max(‖arr‖, tol)"""
+    """copy of arr with entry idx moved by sign * 10^k * tol * max(‖arr‖, tol); idx None: every entry moved, with
+    alternating signs, so that the difference has that Euclidean norm"""
     b = np.array(arr, dtype=np.float64, copy=True)
     flat = b.reshape(-1)
     if flat.size == 0:
         return b
-    flat[idx % flat.size] += sign * (10.0**k) * tol * max(nrm(arr), tol)
+    d = sign * (10.0**k) * tol * max(nrm(arr), tol)
+    if idx is None:
+        for j in range(flat.size):
+            flat[j] += (d if j % 2 == 0 else -d) / math.sqrt(flat.size)
+    else:
+        flat[idx % flat.size] += d
     return b
 
 
@@ -156,11 +165,13 @@ def edge_blocks(a, b):
 FIELDS = ["cls", "ids", "info_shape", "info_pert", "est", "est_pert", "off", "off_pert", "off_id"]
 
 
-def alternatives(base, full):
-    """field -> list of alternative values (full: every k and both ends; else the reduced set)"""
+def alternatives(base, full, both_ends=True):
+    """field -> list of alternative values (full: every k, last / first / all entries; else the reduced set)"""
     ks = KS_OUT if full else KS_SMALL
-    idxs = [0, -1] if full else [-1]
+    idxs = [0, -1] if (full and both_ends) else [-1]
     perts = [(i, k) for i in idxs for k in ks]
+    if full:
+        perts += [(None, k) for k in KS_OUT + KS_FINE] + [(-1, k) for k in KS_FINE]
     alt = {
         "cls": [c for c in CLASSES if c != base["cls"]],
         "ids": [i for i in IDS if i != base["ids"]],
@@ -260,8 +271,8 @@ def stream_poses(R, tol_for_pert=DEFAULT_TOL):
             ac = a.copy()  # the class's own copy() (SE(2): re-wraps the angle)
             R.add("pose", a, ac, [(np.asarray(a), np.asarray(ac))], C.pose_tokens(a), C.pose_tokens(ac), dict(kinds=[ka, kb], magn=magn, copy=True))
             for tp in (DEFAULT_TOL, 1e-3):
-                for i in range(C.DIM[ka]):
-                    for k in KS:
+                for i in list(range(C.DIM[ka])) + [None]:
+                    for k in KS + KS_FINE:
                         for sign in (1.0, -1.0):
                             b = C.raw_pose(kb, perturbed(a, i, k, tp, sign))
                             R.add("pose", a, b, [(np.asarray(a), np.asarray(b))], C.pose_tokens(a), C.pose_tokens(b), dict(kinds=[ka, kb], magn=magn, comp=i, k=k, pert_tol=tp))
@@ -300,7 +311,7 @@ def nontrivial_edge(base, other):
 
 def stream_edges(R, rng, tier):
     full_two = tier == "thorough"
-    magns1 = ("gen", "zero", "big")
+    magns1 = ("gen", "zero", "big") if full_two else ("gen", "zero")
     magns2 = ("gen", "zero") if full_two else ("gen",)
     sample2 = 1.0 if full_two else 0.02
     cache = {}
@@ -326,7 +337,7 @@ def stream_edges(R, rng, tier):
     # one-factor deviations, every base, every alternative (plus the exact copy)
     for base in base_specs(magns1):
         emit(base, dict(base), dict(base={f: base[f] for f in FIELDS}, magn=base["magn"], change="copy"))
-        alt = alternatives(base, True)
+        alt = alternatives(base, True, both_ends=full_two)
         for f, vals in alt.items():
             for v in vals:
                 other = dict(base)
